@@ -122,11 +122,11 @@ def run(tier: str) -> int:
     wd = common.workdir("C18")
     try:
         out = wd / "cases.json"
-        cfg = cfg_text("Spec", constants={"Contents": {"h1", "h2"}, "Targets": {"t1"}, "Stride": 1 if quick else 1},
+        cfg = cfg_text("Spec", constants={"Contents": {"h1", "h2"}, "Targets": {"t1"}, "Stride": 1 if quick else 17},
                        invariants=["TreesWellFormed", "EmptyIffEqual", "RootReported", "OrderComplete", "OrderSafe"],
-                       postcondition="Export").replace("CONSTANTS\n", "CONSTANTS\n  Names1 <- N1\n  Names2 <- N2\n")
+                       postcondition="Export").replace("CONSTANTS\n", "CONSTANTS\n  Names1 <- N1\n  Names2 <- " + ("N2" if quick else "N2big") + "\n")
         r = run_tlc("MC_DirDiff", cfg, wd, env={"OUT_FILE": str(out)}, timeout=3000)
-        rep.add_tlc("diff_order_model", r, names_depth1=["x", "y"], names_depth2=["x"], exhaustive=True)
+        rep.add_tlc("diff_order_model", r, names_depth1=["x", "y"], names_depth2=["x"] if quick else ["x", "y"], exhaustive=True)
         if r.violated:
             rep.violation(f"TLC: {r.violated} violated in the DirDiff model", {"tlc_out": r.out[-4000:]})
         elif not r.ok or not out.exists():
